@@ -3,6 +3,8 @@ package types
 import (
 	"io"
 
+	"github.com/kardiachain/go-kardia/lib/common"
+
 	"github.com/kardiachain/go-kardia/lib/merkle"
 )
 
@@ -114,4 +116,57 @@ func VerifC13_S1(v *VerifV) {
 			}
 		}
 	}
+}
+
+// VerifC13_S6: a proposer may commit to any list of parts, including empty ones (honest
+// splitting never produces them). For every part list of NP parts with lengths in 0..2 and
+// symbolic bytes: the parts with their proofs are all accepted by a set created from the header,
+// the set becomes complete, and its reader yields exactly the concatenation the header hash
+// commits to - read with any buffer size.
+func VerifC13_S6(v *VerifV) {
+	verifV = v
+	NP := v.Param("NP")
+	var partsBytes [][]byte
+	var data []byte
+	for i := 0; i < NP; i++ {
+		n := v.Choice("part-len", 3)
+		b := v.Bytes("part", n)
+		if n == 0 {
+			b = []byte{}
+			if i > 0 && i < NP-1 {
+				v.Cover("empty-middle-part")
+			}
+		}
+		partsBytes = append(partsBytes, b)
+		data = append(data, b...)
+	}
+	root, proofs := merkle.SimpleProofsFromByteSlices(partsBytes)
+	ps := NewPartSetFromHeader(PartSetHeader{Total: uint32(NP), Hash: common.BytesToHash(root)})
+	for i := 0; i < NP; i++ {
+		added, err := ps.AddPart(&Part{Index: uint32(i), Bytes: partsBytes[i], Proof: *proofs[i]})
+		v.Assert(added && err == nil, "C13.parts.committed-part-rejected")
+	}
+	v.Assert(ps.IsComplete(), "C13.parts.cannot-complete")
+	if !ps.IsComplete() {
+		return
+	}
+	rd := ps.GetReader()
+	bufLen := 1 + v.Choice("buffer", 4)
+	var got []byte
+	for guard := 0; guard < 4*NP+4; guard++ {
+		buf := make([]byte, bufLen)
+		n, err := rd.Read(buf)
+		got = append(got, buf[:n]...)
+		if err != nil {
+			v.Assert(err == io.EOF, "C13.parts.reader-error")
+			break
+		}
+	}
+	v.Assert(len(got) == len(data), "C13.parts.reassembly-length")
+	if len(got) == len(data) {
+		for i := range data {
+			v.Assert(got[i] == data[i], "C13.parts.reassembly-differs")
+		}
+	}
+	v.Cover("read-back")
 }
